@@ -608,3 +608,18 @@ _ADDED6 = {'C02': ' Round 9: C02.restart (an attack stopped while its pacing loo
            'C20': ' Round 9: URLs with credentials; attack names up to 170 runes and not UTF-8; the sum is compared with a tolerance relative to the magnitude of its terms.'}
 for _k, _v in _ADDED6.items():
     PROPS[_k]["rule"] += _v
+
+_ADDED7 = {'C02': ' Round 10: initial worker counts up to 2^64-1.',
+           'C03': ' Round 10: initial worker counts 2^32, 2^63-1, 2^63, 2^64-1 in the histories.',
+           'C06': ' Round 10: nothing but the target\'s own headers and the attack\'s two may reach the transport; a first response that sets cookies for the next targets\' URL.',
+           'C07': ' Round 10: header names in the spelling a server sent (lower case, two spellings of one name) through gob and JSON.',
+           'C10': ' Round 10: one exchange of 2^63 bytes and more; the exhausted-targeter error text.',
+           'C11': ' Round 10: a rendering of an empty report before the first result.',
+           'C12': ' Round 10: bounds from one end of the duration range to the other.',
+           'C15': ' Round 10: 5..65 default values on the key the targets share.',
+           'C16': ' Round 10: lines of Unicode blanks in http target files; nan / inf / hex-float / 1e400 spellings for the numeric flags.',
+           'C17': ' Round 10: C17.plotcmd with an attack\'s results cut into 2..3 input files.',
+           'C19': ' Round 10: CR, NBSP, VT, FF, EM SPACE around -header names and values.',
+           'C20': ' Round 10: one exchange of 2^63 bytes and more; the metrics registered with a second registry.'}
+for _k, _v in _ADDED7.items():
+    PROPS[_k]["rule"] += _v
